@@ -2,6 +2,7 @@ package props
 
 import (
 	"fmt"
+	"go/token"
 	"go/types"
 
 	"golang.org/x/tools/go/ssa"
@@ -25,6 +26,10 @@ func init() {
 }
 
 func runC09(p *core.Prog, r *core.Report) {
+	r.Guard("C09.R2", "visits-all", "no silent truncation", func() {
+		checkNoSilentTruncation(p, r, "C09.R2", []loopSite{{pkgStore, "baseStore.Flush", nil}, {pkgStore, "baseStore.SetDeltas", nil}, {pkgStore, "baseStore.deletePrefix", nil}})
+	})
+
 	kvOps := func() *types.Var { return p.Field(pkgStore, "baseStore", "kvOps") }
 	flushObj := func() *types.Func { return p.FuncObj(pkgStore, "baseStore.Flush") }
 
@@ -268,6 +273,43 @@ func runC09(p *core.Prog, r *core.Report) {
 				}
 			}
 		})
+		// ... whenever the module output is a store output: the only condition on the re-marshal is the nil test of the store
+		// deltas getter (a replay that yields zero deltas must hand downstream an empty delta list, not the operation log)
+		okGuard := false
+		core.Instrs(fn, func(x ssa.Instruction) {
+			c, ok := x.(*ssa.Call)
+			if !ok {
+				return
+			}
+			cl := core.CommonCallee(c.Common())
+			if cl == nil || cl.Name() != "Marshal" || !core.Trace(c.Call.Args[len(c.Call.Args)-1], 1).HasCallNamed("GetStoreDeltas") {
+				return
+			}
+			// nearest conditional whose successor dominates the call
+			for b := c.Block(); b != nil; b = b.Idom() {
+				id := b.Idom()
+				if id == nil {
+					break
+				}
+				ifi, isIf := id.Instrs[len(id.Instrs)-1].(*ssa.If)
+				if !isIf || !(id.Succs[0] == b || id.Succs[1] == b) || len(b.Preds) != 1 {
+					continue
+				}
+				cnd, _ := core.StripNot(ifi.Cond)
+				if bo, ok := cnd.(*ssa.BinOp); ok && (bo.Op == token.NEQ || bo.Op == token.EQL) {
+					isGetter := func(v ssa.Value) bool {
+						cc, ok := v.(*ssa.Call)
+						return ok && core.CommonCallee(cc.Common()) != nil && core.CommonCallee(cc.Common()).Name() == "GetStoreDeltas"
+					}
+					isNil := func(v ssa.Value) bool { k, ok := v.(*ssa.Const); return ok && k.IsNil() }
+					if (isGetter(bo.X) && isNil(bo.Y)) || (isGetter(bo.Y) && isNil(bo.X)) {
+						okGuard = true
+					}
+				}
+				break
+			}
+		})
+		r.Check(okGuard, "C09.R4", "RunModule/deltas-remarshalled/always", "the re-marshal happens for every cached store output: its only guard is `GetStoreDeltas() != nil` (not the number of deltas)", "the re-marshal of the deltas is guarded by another condition", p.Pos(apply.Pos()))
 		r.Check(remarsh, "C09.R4", "RunModule/deltas-remarshalled", "for a cached store module the bytes given to downstream modules are re-marshalled from the replayed store's deltas, not the operation log", "no Marshal of the module output's store deltas after the replay", p.Pos(apply.Pos()))
 	})
 	r.Guard("C09.R4", "toModuleOutput", "deltas from the store", func() {
